@@ -111,8 +111,9 @@ def msStreamUserBitrate (l : MsLayout) (fs fsz bitrateBps i : Int) : Option Int 
 def fitsI32 (x : Int) : Bool := decide (-2147483648 ≤ x ∧ x ≤ 2147483647)
 
 /-- Every `int` / `opus_int32` intermediate of the C evaluation fits 32 bits and no division is by zero — in the
-    order of the source; the products `channel_rate*coupled_ratio` / `channel_rate*lfe_ratio` of :729/:733 are
-    evaluated only for a coupled / the LFE stream.  (The 64-bit product of :724 needs no check: `|num| < 2^31`.) -/
+    order of the source.  The products `channel_rate*coupled_ratio` / `channel_rate*lfe_ratio` of :729/:733 are computed
+    in `opus_int64` (since /repo 69d56905) and only their `>>8` is cast back to `opus_int32`: the shifted value must fit;
+    they are evaluated only for a coupled / the LFE stream.  (The 64-bit product of :724 needs no check: `|num| < 2^31`.) -/
 def msFits (l : MsLayout) (fs fsz bitrateBps : Int) : Bool :=
   if l.ambisonics then
     fitsI32 (60 * fs) && fitsI32 ((l.nbCoupled + l.nbStreams) * (fs + 60 * fs / fsz)) && fitsI32 (l.nbStreams * 15000) &&
@@ -128,9 +129,10 @@ def msFits (l : MsLayout) (fs fsz bitrateBps : Int) : Bool :=
     fitsI32 (v.streamOffset * (l.nbCoupled + v.nbUncoupled)) && fitsI32 (v.bitrate - v.lfeOffset * v.nbLfe) &&
     fitsI32 (v.bitrate - v.lfeOffset * v.nbLfe - v.streamOffset * (l.nbCoupled + v.nbUncoupled)) && fitsI32 v.num &&
     fitsI32 v.channelRate &&
-    (decide (l.nbCoupled ≤ 0) || (fitsI32 (v.channelRate * 512) && fitsI32 (2 * v.channelOffset + max 0 (v.streamOffset + v.channelRate * 512 / 256)))) &&
+    (decide (l.nbCoupled ≤ 0) || (fitsI32 (v.channelRate * 512 / 256) && fitsI32 (v.streamOffset + v.channelRate * 512 / 256) &&
+      fitsI32 (2 * v.channelOffset + max 0 (v.streamOffset + v.channelRate * 512 / 256)))) &&
     fitsI32 (v.streamOffset + v.channelRate) && fitsI32 (v.channelOffset + max 0 (v.streamOffset + v.channelRate)) &&
-    (decide (v.nbLfe = 0) || fitsI32 (v.channelRate * 32)) &&
+    (decide (v.nbLfe = 0) || (fitsI32 (v.channelRate * 32 / 256) && fitsI32 (v.lfeOffset + v.channelRate * 32 / 256))) &&
     fitsI32 (msRateSum l fs fsz bitrateBps)
 
 /-- `max_data_bytes` after the CBR clamp of `opus_multistream_encode_native` (:878-888) with the allocated rates. -/
